@@ -23,7 +23,7 @@ QUICK_ALPHABET = ["to_f16", "to_bf16", "to_f32", "to_f64", "double", "half", "to
                   "deriv_to_f32", "gdef_f64", "gdef_f32", "eval"]
 FULL_ALPHABET = QUICK_ALPHABET + ["float", "bfloat16", "to_inst_none", "deriv_double", "to_int", "to_kw_f32", "float64", "float16",
                                   "to_tensor_bf16", "simulate_big", "deriv_half", "deriv_bfloat16", "deriv_float", "deriv_float64",
-                                  "deriv_float16", "deriv_to_tensor_f64"]
+                                  "deriv_float16", "deriv_to_tensor_f64", "reg_int", "reg_bool"]
 
 
 def make_primary(name):
@@ -92,7 +92,7 @@ def run_sequence(case, ctx):
             with ctx.sut("C17/simulate", expected=unsupported):
                 deriv.simulate(n_paths=n)
             want = model.D if model.D is not None else torch.get_default_dtype()
-            names = [k for k, _ in ul.named_buffers() if k != "extra"]
+            names = [k for k, _ in ul.named_buffers() if k not in ("extra", "flag")]  # the simulated series (not the caller's own buffers)
             for k in names:
                 model.buf[k] = want
             seen_sim = True
@@ -178,6 +178,11 @@ def run_sequence(case, ctx):
                 elif o == "reg_f64":
                     ul.register_buffer("extra", torch.ones(2, 3, dtype=torch.float64))
                     model.buf["extra"] = model.D if model.D is not None else torch.float64
+                elif o in ("reg_int", "reg_bool"):
+                    # a regime label / a mask kept with the paths: cast to the declared dtype like every buffer
+                    payload = torch.ones(2, 3, dtype=torch.int64) if o == "reg_int" else torch.ones(2, 3, dtype=torch.bool)
+                    ul.register_buffer("flag", payload)
+                    model.buf["flag"] = model.D if model.D is not None else payload.dtype
                 elif o == "gdef_f64":
                     torch.set_default_dtype(torch.float64)
                 elif o == "gdef_f32":
@@ -203,7 +208,7 @@ def run_sequence(case, ctx):
                             ctx.check(r.dtype == mid, "C17/output-dtype", f"mid-history {lab} is {r.dtype}, instruments are {mid} (ops {case['ops'][: i + 1]})",
                                       output=lab)
                 elif o == "to_int":
-                    for bad in (torch.int64, torch.bool, torch.int32):
+                    for bad in (torch.int64, torch.bool, torch.int32, torch.complex64, torch.complex128):
                         ctx.expect_raises("C17/non-float-accepted", (TypeError,), lambda bad=bad: ul.to(bad))
                     ctx.expect_raises("C17/non-float-accepted", (TypeError,), lambda: deriv.to(torch.int64))
                 else:
@@ -316,7 +321,7 @@ SUBS = [
         enumerate=enumerate_sequences, exhaustive=True, time_cap={"quick": 240.0, "thorough": 3000.0}),
     Sub("random_histories", run_sequence,
         rule="Hypothesis lists of 4..12 ops over the full alphabet (adds float, bfloat16, float64, float16, to(dtype=), to(instrument "
-             "without dtype), derivative.double, to(tensor bf16), simulate with another n_paths, to(int/bool) -> TypeError), both initial "
+             "without dtype), derivative.double, to(tensor bf16), simulate with another n_paths, register_buffer(int64 / bool payload), to(int/bool/complex) -> TypeError), both initial "
              "global default dtypes. Non-trivial as above.",
         strategy=lambda tier: random_history(), examples={"quick": 1600, "thorough": 16000}, fuzz={"thorough": 120.0}),
 ]
